@@ -1,7 +1,5 @@
 """vsched.cli -- ./check <PROP> --tier quick|thorough   |   ./check --replay <file>
 
-GEN_NOTE = " Also judged by this property's oracle: the grammar-generated corpus shared by the bus properties (vsched/gen.py, DESIGN.md section 10: bus configuration x handler programs of a root event and of its child x time-out; every schedule with <= 1 deviation, thorough: <= 2 on the sub-grammar, <= 1 on the full grammar)."
-
 exit 0: property held on everything explored (KNOWN-FINDING lines possible); 1: VIOLATION; 2: harness error.
 """
 from __future__ import annotations
